@@ -3,7 +3,7 @@ import IronCalc.Formula.Rename
   Helper lemmas about `Tree.map` (functor laws, congruence on the annotations that occur) and the
   per-reference facts about `renameSheetRef` / `renameNameIdent`.
 -/
-namespace IronCalc.Formula
+namespace IronCalc.RefTree
 theorem flatMap_congr' {α β : Type} {f g : α → List β} {l : List α} (h : ∀ a ∈ l, f a = g a) :
     l.flatMap f = l.flatMap g := by
   induction l with
@@ -141,4 +141,4 @@ theorem renameSheetRef_name (i : Nat) (new : String) (k : RefKind) (r : SheetRes
   · rename_i h; simp [h]
   · rename_i h; simp [h]
 
-end IronCalc.Formula
+end IronCalc.RefTree
